@@ -56,6 +56,8 @@ UNITS = {
             I(RAW, r'^impl RawTableInner$', 'find_inner', impl='RawTableInner'),
             I(RAW, r'^impl RawTableInner$', 'find_or_find_insert_slot_inner', impl='RawTableInner'),
             I(RAW, r'^impl RawTableInner$', 'prepare_rehash_in_place', impl='RawTableInner'),
+            I(RAW, r'^impl RawTableInner$', 'prepare_insert_slot', impl='RawTableInner'),
+            I(RAW, r'^impl RawTableInner$', 'clear_no_drop', impl='RawTableInner'),
         ],
     ),
     # C08 / C13 / C12: the growth decision of reserve_rehash_inner against the contracts of its callees
@@ -176,6 +178,31 @@ UNITS = {
             I(RAW, r'^impl RawTableInner$', 'rehash_in_place', impl='RawTableInner'),
         ],
     ),
+    # C08 / C13 / C01 / C06 / C03: resize_inner: every element re-inserted into the new table
+    'resize': dict(
+        widths=[16, 8],
+        prelude='preludes/ctrl.rs',
+        prelude_extra=['preludes/rehash.rs', 'preludes/resize.rs'],
+        specs=['contracts/ctrl.vspec', 'contracts/resize.vspec'],
+        lemmas=['lemmas/ctrl_lemmas.rs', 'lemmas/mask_lemmas.rs', 'lemmas/probe_lemmas.rs', 'lemmas/loop_lemmas.rs', 'lemmas/slot_lemmas.rs', 'lemmas/rehash_lemmas.rs', 'lemmas/resize_lemmas.rs'],
+        extra='resize_rules',
+        items=[
+            I(TAG, r'^impl Tag$', 'is_full', impl='Tag'),
+            I(TAG, r'^impl Tag$', 'full', impl='Tag'),
+            I(RAW, None, 'h1'),
+            I(RAW, r'^impl RawTableInner$', 'buckets', impl='RawTableInner'),
+            I(RAW, r'^impl RawTableInner$', 'probe_seq', impl='RawTableInner'),
+            I(RAW, r'^impl RawTableInner$', 'is_bucket_full', impl='RawTableInner'),
+            I(RAW, r'^impl RawTableInner$', 'set_ctrl', impl='RawTableInner'),
+            I(RAW, r'^impl RawTableInner$', 'set_ctrl_hash', impl='RawTableInner'),
+            I(RAW, r'^impl RawTableInner$', 'find_insert_slot_in_group', impl='RawTableInner'),
+            I(RAW, r'^impl RawTableInner$', 'fix_insert_slot', impl='RawTableInner'),
+            I(RAW, r'^impl ProbeSeq$', 'move_next', impl='ProbeSeq'),
+            I(RAW, r'^impl RawTableInner$', 'find_insert_slot', impl='RawTableInner'),
+            I(RAW, r'^impl RawTableInner$', 'prepare_insert_slot', impl='RawTableInner'),
+            I(RAW, r'^impl RawTableInner$', 'resize_inner', impl='RawTableInner'),
+        ],
+    ),
 }
 
 
@@ -282,9 +309,10 @@ def ctrl_rules(toks, i, out, hit):
             elif x.kind == 'punct' and x.text == '{' and depth == 0:
                 break
             b += 1
-        expr = extract.rewrite(toks[k + 1:b], set(), _HITS, ctrl_rules)
+        rf = _FLAGS.get('top_rules') or ctrl_rules
+        expr = extract.rewrite(toks[k + 1:b], set(), _HITS, rf)
         close = extract._find_close(toks, b)
-        body = extract.rewrite(toks[b + 1:close], set(), _HITS, ctrl_rules)
+        body = extract.rewrite(toks[b + 1:close], set(), _HITS, rf)
         T = extract.T
         out.extend([T('let', t.gap), T('mut'), T('it_'), T('=')])
         if expr:
@@ -325,6 +353,11 @@ def ctrl_rules(toks, i, out, hit):
                 out.append(extract.T(')', ''))
                 hit('R6_group_load_of_ctrl_pointer_to_indexed_load')
                 return close_outer + 1
+    # R5d: `self.ctrl_slice().fill_empty()` -> `self.ctrl_fill_empty()` (every control byte, mirror included, set to EMPTY)
+    if t.text == 'self' and seq(i + 1, '.', 'ctrl_slice', '(', ')', '.', 'fill_empty', '(', ')'):
+        out.extend([extract.T('self', t.gap), extract.T('.', ''), extract.T('ctrl_fill_empty', ''), extract.T('(', ''), extract.T(')', '')])
+        hit('R5d_ctrl_slice_fill_to_indexed_fill')
+        return i + 9
     # R6b: `G.store_aligned(self.ctrl(E))` -> `self.group_store_aligned(E, G)`
     if t.kind == 'id' and seq(i + 1, '.', 'store_aligned', '(', 'self', '.', 'ctrl', '('):
         close_inner, args = _args_until_close(toks, i + 7)
@@ -677,6 +710,55 @@ def rehash_rules(toks, i, out, hit):
         _FLAGS['no_r7'] = False
 
 
+def resize_rules(toks, i, out, hit):
+    """unit `resize`: the rules of unit rehash, with the scope guard around the NEW table elided the same way
+       (R18': `new_table` is the table itself), `for` over the FullBucketsIndices iterator desugared by R7, and
+       R19' `ptr::copy_nonoverlapping(X.bucket_ptr(A, S), Y.bucket_ptr(B, S), N)` -> `Y.elem_copy_from(X, X.bucket_ptr(A, S), Y.bucket_ptr(B, S), N)`
+       (a copy between two tables names both of them)."""
+    t = toks[i]
+    n = len(toks)
+
+    def seq(k, *texts):
+        return k + len(texts) <= n and all(toks[k + a].text == x for a, x in enumerate(texts))
+    T = extract.T
+    if t.text == 'ptr' and seq(i + 1, ':', ':', 'copy_nonoverlapping', '('):
+        c = extract._find_close(toks, i + 4)
+        args = extract._split_args(toks[i + 5:c])
+        if len(args) == 3 and len(args[0]) > 3 and len(args[1]) > 3 and args[0][1].text == '.' and args[0][2].text == 'bucket_ptr' \
+                and args[1][1].text == '.' and args[1][2].text == 'bucket_ptr':
+            X, Y = args[0][0].text, args[1][0].text
+            out.extend([T(Y, t.gap), T('.', ''), T('elem_copy_from', ''), T('(', ''), T(X, ''), T(',', '')])
+            for k, a in enumerate(args):
+                out.extend(extract.rewrite(a, set(), _HITS, resize_rules))
+                if k < 2:
+                    out.append(T(',', ''))
+            out.append(T(')', ''))
+            hit('R19b_raw_element_copy_between_tables')
+            return c + 1
+        raise ExtractError('R19b: unexpected shape of copy_nonoverlapping')
+    if t.kind == 'id' and t.text == 'for' and out and out[-1].text in (';', '{', '}'):
+        # not a range: leave to R7 (ctrl_rules)
+        hdr_has_range = False
+        k = i + 1
+        depth = 0
+        while k < n and not (toks[k].text == '{' and depth == 0):
+            if toks[k].text in '([':
+                depth += 1
+            elif toks[k].text in ')]':
+                depth -= 1
+            if toks[k].text == '.' and toks[k + 1].text == '.' and toks[k + 1].gap == '' and depth == 0:
+                hdr_has_range = True
+            k += 1
+        if not hdr_has_range:
+            _FLAGS['no_r7'] = False
+            _FLAGS['top_rules'] = resize_rules
+            try:
+                return ctrl_rules(toks, i, out, hit)
+            finally:
+                _FLAGS['top_rules'] = None
+    return rehash_rules(toks, i, out, hit)
+
+
 def generate(unit_name, width, outdir):
     u = UNITS[unit_name]
     specs = {}
@@ -709,8 +791,9 @@ def generate(unit_name, width, outdir):
         meta.append(dict(key=it['key'], file=it['file'], lines=[item['line0'], item['line1']],
                          sha256=item['sha'], tokens=item['ntokens']))
     prelude = open(os.path.join(VERIF, u['prelude'])).read().replace('@WIDTH@', str(width))
-    if u.get('prelude_extra'):
-        prelude += '\n' + open(os.path.join(VERIF, u['prelude_extra'])).read().replace('@WIDTH@', str(width))
+    pe = u.get('prelude_extra') or []
+    for pf in ([pe] if isinstance(pe, str) else pe):
+        prelude += '\n' + open(os.path.join(VERIF, pf)).read().replace('@WIDTH@', str(width))
     parts = ['// GENERATED by /verif/lib/vunits.py from /repo working tree -- do not edit\n',
              'use vstd::prelude::*;\n#[allow(unused_imports)]\nuse core::mem;\n#[allow(unused_imports)]\nuse vstd::arithmetic::power2::*;\n#[allow(unused_imports)]\nuse vstd::arithmetic::div_mod::*;\n#[allow(unused_imports)]\nuse vstd::arithmetic::mul::*;\n#[allow(unused_imports)]\nuse vstd::bits::*;\n#[allow(unused_imports)]\nuse vstd::set_lib::*;\nverus! {\n', prelude, '\n']
     parts += [f + '\n\n' for f in free]
